@@ -267,6 +267,74 @@ def propagate_monitors(chk, tier):
         chk.violation("dephasing:exception", "dephasing-limit monitor raised %r" % (e,), "monitor", c)
 
 
+def molecule_dephasing_monitor(chk, tier):
+    """the exactly solvable model reached through the other open system: one multi-level Molecule (its excited states are
+    uncoupled sites) with baths on a subset of its transitions, through Molecule.get_KTHierarchyPropagator.  A coherence
+    between levels k and l follows exp(-i (w_k - w_l) t - g_k(t) - conj(g_l(t))), with g = 0 for a level without a bath."""
+    import numpy
+    import quantarhei as qr
+    from quantarhei.core.units import kB_int as kB_intK
+    r = cm.rng(PID + "mol")
+    confs = [{"energies": [0.0, 10000.0, 10300.0], "baths": {"2": [30.0, 60.0]}},
+             {"energies": [0.0, 10000.0, 10300.0], "baths": {"1": [40.0, 50.0], "2": [30.0, 60.0]}}]
+    for k in range(1 if tier == "quick" else 6):
+        nl = r.choice([3, 4])
+        en = [0.0] + [10000.0 + 150.0 * i + r.choice([0.0, 40.0]) for i in range(nl - 1)]
+        lv = [i for i in range(1, nl) if r.random() < 0.6] or [nl - 1]
+        confs.append({"energies": en, "baths": {str(i): [float(r.choice([20, 30, 50])), float(r.choice([40, 60, 80]))] for i in lv}})
+    T = 300.0
+    for conf in confs:
+        c = {"kind": "molecule_dephasing_limit"}
+        c.update(conf)
+        try:
+            ta = qr.TimeAxis(0.0, 200, 1.0)
+            t = ta.data
+            nl = len(conf["energies"])
+            with qr.energy_units("1/cm"):
+                mol = qr.Molecule(list(conf["energies"]))
+                for lev, (reorg, cortime) in sorted(conf["baths"].items()):
+                    cf = qr.CorrelationFunction(ta, dict(ftype="OverdampedBrownian-HighTemperature", reorg=reorg, cortime=cortime, T=T))
+                    mol.set_transition_environment((0, int(lev)), cf)
+            g = [numpy.zeros(len(t), dtype=complex) for _ in range(nl)]
+            for lev, (reorg, cortime) in conf["baths"].items():
+                lam, gam, kBT = qr.convert(reorg, "1/cm", "int"), 1.0 / cortime, kB_intK * T
+                g[int(lev)] = (lam * (2.0 * kBT - 1j * gam) / gam ** 2) * (numpy.exp(-gam * t) + gam * t - 1.0)
+            psi = numpy.array([1.0] + [0.7 + 0.2j * i for i in range(1, nl)])
+            psi = psi / numpy.linalg.norm(psi)
+            rho0 = numpy.outer(psi, psi.conj())
+            errs = {}
+            for depth in (1, 3, 6):
+                with contextlib.redirect_stdout(io.StringIO()):
+                    kprop = mol.get_KTHierarchyPropagator(depth=depth)
+                ham = kprop.hy.ham
+                w = [ham.data[i, i].real - ham.rwa_energies[i] for i in range(nl)]
+                rhoi = qr.ReducedDensityMatrix(data=rho0.copy())
+                dat = kprop.propagate(rhoi).data
+                worst, where = 0.0, None
+                for a in range(nl):
+                    for b in range(nl):
+                        # populations do not dephase (the fluctuation of a level cancels against itself)
+                        ex = rho0[a, b] * (numpy.exp(-1j * (w[a] - w[b]) * t - g[a] - numpy.conj(g[b])) if a != b else numpy.ones(len(t)))
+                        e = float(numpy.max(numpy.abs(dat[:, a, b] - ex)))
+                        if e > worst:
+                            worst, where = e, (a, b)
+                errs[depth] = (worst, where)
+                free = [(a, b) for a in range(nl) for b in range(nl) if str(a) not in conf["baths"] and str(b) not in conf["baths"]]
+                for (a, b) in free:
+                    e = float(numpy.max(numpy.abs(dat[:, a, b] - rho0[a, b] * numpy.exp(-1j * (w[a] - w[b]) * t))))
+                    if e > 1e-5:
+                        chk.violation("dephasing:molecule_free_transition", "Molecule.get_KTHierarchyPropagator(depth=%d): element (%d,%d) "
+                                      "between levels without a bath differs from the closed-system one by %.3g" % (depth, a, b, e), "monitor", c)
+                        break
+            chk.case(("molecule_dephasing_limit", json.dumps(conf, sort_keys=True)), True)
+            chk.count("molecule_dephasing:%d_levels_%d_baths" % (nl, len(conf["baths"])))
+            if not (errs[6][0] < errs[3][0] < errs[1][0]) or errs[6][0] > max(1e-3, 0.05 * errs[1][0]):
+                chk.violation("dephasing:molecule_no_convergence", "HEOM of a %d-level molecule with baths on levels %s does not converge with "
+                              "depth to exp(-i w t - g(t)): worst element error per depth %r" % (nl, sorted(conf["baths"]), errs), "monitor", c)
+        except Exception as e:
+            chk.violation("dephasing:molecule_exception", "molecule dephasing-limit monitor raised %r" % (e,), "monitor", c)
+
+
 def run(chk, cases):
     tab_items, tab_meta, rhs_items, rhs_meta = [], [], [], []
     for c in cases:
@@ -366,6 +434,7 @@ def main():
         cases += [rhs_case(r, k) for k in range(40 if args.tier == "quick" else 400)]
         run(chk, cases)
         propagate_monitors(chk, args.tier)
+        molecule_dephasing_monitor(chk, args.tier)
     chk.finish()
 
 
